@@ -160,7 +160,12 @@ def _run(case, G, B, start, n_iter=None):
         out = np.asarray(x).T
     else:
         raise ValueError(solver)
-    return np.asarray(out, dtype=np.float64) / xs
+    raw = np.asarray(out, dtype=np.float64)
+    # "is a row entirely zero" / "is an entry below the bound" are measured on the array the solver returned, in its own
+    # units: dividing by 2^(sb-sa) can flush a denormal entry (a row decaying towards 0) to exactly 0
+    case["_meas"] = {"zero_rows": int(np.sum(np.all(raw == 0, axis=1))) if raw.ndim == 2 else 0,
+                     "nlow": int(np.sum(raw < eps))}
+    return raw / xs
 
 
 def solve(case, G, B):
@@ -209,6 +214,7 @@ def gen_problem(case):
 
 
 def execute(case):
+    case = dict(case)
     if case["kind"] == "exact":
         G = np.array(case["G"], dtype=np.float64)
         B = np.array(case["B"], dtype=np.float64).T            # n x k
@@ -229,8 +235,8 @@ def execute(case):
         if X.shape == (n, k):
             ev["x"] = _cols(X)
             ev["xf"] = _fine(X)
-            ev["nlow"] = int(np.sum(X < case.get("ep", 0) / case.get("eq", 1)))      # entries below the bound, on the floats
-            ev["zero_rows"] = int(np.sum(np.all(X == 0, axis=1)))
+            ev["nlow"] = case["_meas"]["nlow"]                  # entries below the bound (0 or epsilon), on the returned floats
+            ev["zero_rows"] = case["_meas"]["zero_rows"]
             if case["kind"] == "kkt":
                 l1, l2 = case["p1"] / case["q"], case["p2"] / case["q"]
                 ev["g"] = _cols(G @ X - B + l1 + 2 * l2 * X)
